@@ -269,8 +269,8 @@ func (d *ubjDec) container(obj bool) (Value, *refErr) {
 				if e := d.need(1); e != nil {
 					return Value{}, e
 				}
-				if d.b[d.p] != 'N' {
-					break
+				if d.b[d.p] != 'N' || obj {
+					break // (where a field name is expected a no-op is not a length marker: malformed)
 				}
 				d.p++
 			}
@@ -295,9 +295,9 @@ func (d *ubjDec) container(obj bool) (Value, *refErr) {
 		if typ != 0 {
 			el, e = d.payload(typ)
 		} else {
-			// no-ops before a value inside a plain container are skipped; in counted
-			// containers the corner is ambiguous and is never generated
-			for count < 0 {
+			// a no-op where a value is expected (array element, object member value; plain and counted
+			// containers) is skipped and does not count
+			for {
 				if e := d.need(1); e != nil {
 					return Value{}, e
 				}
